@@ -42,7 +42,7 @@ namespace TrRouting
     int getSequenceInTrip() const {return sequenceInTrip;}
     bool canTransferSameLine() const {return canTransferSameLineValue;}
     short getMinWaitingTime() const {return minWaitingTimeSeconds;}
-    short getMinWaitingTimeOrDefault(short defaultMinWaitingTime) const {
+    int getMinWaitingTimeOrDefault(int defaultMinWaitingTime) const {
       if (minWaitingTimeSeconds >= 0) {
         return minWaitingTimeSeconds;
       } else {
